@@ -1176,11 +1176,19 @@ class CursedHR:
                         filter_cursor = len(fh_tmp[fh_index])
                         input_format = curses.color_pair(0)
 
-                        self.display(
-                            display_entries,
-                            [FormattedText(fh_tmp[fh_index], input_format)],
-                        )
-                        self.window.move(max_lines, filter_cursor)
+                        def show_filter_input() -> None:
+                            # Show the part of the input around the cursor which fits into the last line
+                            text = fh_tmp[fh_index]
+                            position = min(filter_cursor, len(text))
+                            width = max(1, max_columns - 1)
+                            offset = max(0, position - width + 1)
+                            self.display(
+                                display_entries,
+                                [FormattedText(text[offset : offset + width], input_format)],
+                            )
+                            self.window.move(max_lines, position - offset)
+
+                        show_filter_input()
 
                         while (key := self.window.getkey()) != chr(curses.ascii.ESC):
                             match key:
@@ -1234,11 +1242,7 @@ class CursedHR:
                                     self.color_ids[PenlogPriority.WARNING]
                                 )
 
-                            self.display(
-                                display_entries,
-                                [FormattedText(fh_tmp[fh_index], input_format)],
-                            )
-                            self.window.move(max_lines, min(filter_cursor, len(fh_tmp[fh_index])))
+                            show_filter_input()
                     case "x":
                         self.use_prefix = not self.use_prefix
                     case "t":
